@@ -109,24 +109,24 @@ type govChange struct {
 }
 
 type loopCase struct {
-	NVals    int       `json:"nvals"`
-	ValIdx   int       `json:"val"`
-	PhaseNs  int64     `json:"phase_ns"`
-	Steps    int       `json:"steps"`
-	MinI     int64     `json:"min_interval"`
-	MaxI     int64     `json:"max_interval"`
-	Cooldown int64     `json:"cooldown"`
-	Grace    int64     `json:"grace"`
-	ABTD     int64     `json:"abtd"`
-	MinDev   int64     `json:"min_dev"`
-	MaxDev   int64     `json:"max_dev"`
-	UpdEvery int64     `json:"update_every"`
-	MaxFeeds uint64    `json:"max_feeds"`
-	Sigs     []sigSpec `json:"sigs"`
-	Events   []evt     `json:"events"`
-	BlockPat []int     `json:"block_pat"` // steps between two blocks (cyclic), each 1..3
-	OffPat   []int     `json:"off_pat"`   // block time - step time in ms (cyclic), each in [-3000, 900]
-	SubPat   []int     `json:"sub_pat"`   // per submission (cyclic): 0..2 lands after that many steps; -1 fails at once; -2,-3 lost, released after 1,2 steps
+	NVals    int         `json:"nvals"`
+	ValIdx   int         `json:"val"`
+	PhaseNs  int64       `json:"phase_ns"`
+	Steps    int         `json:"steps"`
+	MinI     int64       `json:"min_interval"`
+	MaxI     int64       `json:"max_interval"`
+	Cooldown int64       `json:"cooldown"`
+	Grace    int64       `json:"grace"`
+	ABTD     int64       `json:"abtd"`
+	MinDev   int64       `json:"min_dev"`
+	MaxDev   int64       `json:"max_dev"`
+	UpdEvery int64       `json:"update_every"`
+	MaxFeeds uint64      `json:"max_feeds"`
+	Sigs     []sigSpec   `json:"sigs"`
+	Events   []evt       `json:"events"`
+	BlockPat []int       `json:"block_pat"`     // steps between two blocks (cyclic), each 1..3
+	OffPat   []int       `json:"off_pat"`       // block time - step time in ms (cyclic), each in [-3000, 900]
+	SubPat   []int       `json:"sub_pat"`       // per submission (cyclic): 0..2 lands after that many steps; -1 fails at once; -2,-3 lost, released after 1,2 steps
 	Gov      []govChange `json:"gov,omitempty"` // governance changes of the feeds params, one proposal at a time, in order of At
 }
 
@@ -671,10 +671,10 @@ type flight struct {
 	emitEpoch    int   // number of param changes the chain had gone through when the daemon decided
 	emitCooldown int64 // CooldownTime the daemon could see when it decided
 	emitStep     int
-	emitNow     time.Time
-	landStep    int
-	lost        bool
-	releaseStep int
+	emitNow      time.Time
+	landStep     int
+	lost         bool
+	releaseStep  int
 }
 
 type handoff struct {
@@ -843,9 +843,9 @@ func runLoop(c loopCase) *pbt.Verdict {
 		govWait
 	)
 	govIdx, govState, govPID := 0, govIdle, uint64(0)
-	paramEpoch := 0                // number of param changes committed so far
-	dynEvents := map[int][]evt{}   // follow-up events of a change, keyed by absolute step
-	prevCooldown := int64(-1)      // CooldownTime before the latest raise (-1: no raise so far)
+	paramEpoch := 0              // number of param changes committed so far
+	dynEvents := map[int][]evt{} // follow-up events of a change, keyed by absolute step
+	prevCooldown := int64(-1)    // CooldownTime before the latest raise (-1: no raise so far)
 	var nParamChanges, nCooldownUp, nCooldownDown, nRaced, nWaitRaised, nWaitRaisedDev, nEarlierLowered, nGovFollow int64
 	var nOtherParam int64
 	nextBlockStep, blockIdx, subIdx, evIdx := 0, 0, 0, 0
